@@ -186,6 +186,11 @@ pub fn build_file(segs: &Value, big: &[PoolStream], small: &[PoolStream], rng: &
                     // parts of the damaged run may be found as plain zlib streams: no exact prediction
                     exact = false;
                 }
+                if why == "name-past-eof" || why == "comment-past-eof" {
+                    // the unterminated string runs on into whatever follows, up to the first zero byte, and
+                    // the probe then continues from there: what it finds is not for the model to say
+                    exact = false;
+                }
                 if s["k"].as_str() == Some("zip") && why == "method" {
                     stored_members.push(bytes.len());
                 }
